@@ -121,7 +121,7 @@ func genPoolOp(r *Rng) *Op {
 		op.Fn = "ScalarBaseMult"
 	case 10:
 		op.Fn = "ScalarMult"
-		if r.Chance(1, 4) {
+		if r.Chance(1, 2) {
 			op.Pt = 3
 			op.ML = r.Intn(8)
 		}
@@ -255,6 +255,16 @@ func siblingOf(r *Rng, base *Op) *Op {
 		}
 	case "X25519":
 		op.Pt = (op.Pt + 1 + r.Intn(2)) % 4
+	case "ScalarMult", "ScalarBaseMult":
+		// the array API right behind itself with the same output array:
+		// an honest point, then a low-order one (or the other way round)
+		op.Fn = "ScalarMult"
+		if base.Fn == "ScalarMult" && base.Pt == 3 {
+			op.Pt = 0
+		} else {
+			op.Pt = 3
+			op.ML = r.Intn(8)
+		}
 	case "GenerateKey":
 		op.NilRd = !op.NilRd
 	default:
@@ -787,6 +797,15 @@ func runEpisode(ep *Episode, pool []*Op, refs []Ref, st *ConcStats, a *concArgs)
 				}
 			}
 		}
+		if len(blockedSet) >= live {
+			// everybody reported blocked: ask each one again, in turn
+			for k := 1; k <= T; k++ {
+				if c := (last + k + T) % T; !cl[c].done {
+					g.C = c
+					break
+				}
+			}
+		}
 		if g.G {
 			runtime.GC()
 			st.GCs++
@@ -814,11 +833,21 @@ func runEpisode(ep *Episode, pool []*Op, refs []Ref, st *ConcStats, a *concArgs)
 			}
 			fmt.Fprintf(grantLog, "%d %d %d\n", g.C, g.S, gc)
 		}
+		hb := zzsimrt.Handoffs()
 		who, kind := zzsimrt.Grant(g.C, g.S)
-		if who != g.C {
-			infra("baton: granted client %d, client %d answered", g.C, who)
-		}
 		adopt()
+		if who != g.C {
+			if zzsimrt.Handoffs() == hb || who < 0 || who >= T {
+				infra("baton: granted client %d, client %d answered", g.C, who)
+			}
+			// the granted client completed a rendezvous on an unbuffered
+			// channel and the baton went on to its partner(s): progress was
+			// made, and the report we got is the partner's
+			blockedStreak = 0
+			blockedSet = map[int]bool{}
+			g.C = who
+			cs = cl[who]
+		}
 		st.Switches++
 		last = g.C
 		switch kind {
@@ -862,14 +891,20 @@ func runEpisode(ep *Episode, pool []*Op, refs []Ref, st *ConcStats, a *concArgs)
 			st.Blocked++
 			blockedStreak++
 			blockedSet[g.C] = true
-			if len(blockedSet) >= live && zzsimrt.AdvanceClock() {
+			// "everybody is blocked" only counts once everybody has been asked
+			// again since the last progress (round robin, see above): what one
+			// client did just before it blocked - announce itself as a receiver,
+			// leave an element in a channel, release a lock - may be exactly
+			// what another one, marked blocked earlier, was waiting for
+			settled := len(blockedSet) >= live && blockedStreak >= 2*live+2
+			if settled && zzsimrt.AdvanceClock() {
 				// everybody waits: simulated time jumps to the next timer or wake-up
 				blockedSet = map[int]bool{}
 				blockedStreak = 0
 				adopt()
 				break
 			}
-			if topLive == 0 && len(blockedSet) >= live {
+			if topLive == 0 && settled {
 				// only goroutines of the library are left and none can run:
 				// they are leaked, not deadlocked callers; leave them parked
 				st.Leaked += live
